@@ -36,11 +36,16 @@ Touched(S) == {Esc(S), "orb", "dust"} \cup FeeRcpts(S) \cup Sink(S)
                  \cup (IF HasSwap(S) THEN {"pool"} ELSE {})
 
 \* observed amount handed to the outgoing route, from the ledger alone
-Forwarded(S) == CASE Route(S) = "CCTP" -> Burn(S, OutDenom(S))
-                  [] Route(S) = "HYP" -> Delta(S, "warp", OutDenom(S))
-                  [] OTHER -> Delta(S, RcptAcct(S.in.fw.to), OutDenom(S))
-\* every credit of denom d outside orbiter / dust / escrow, plus what was burned
-LeftOrbiter(S, d) == MapThenSumSet(LAMBDA a : Delta(S, a, d), Acct \ {"orb", "dust", Esc(S)}) + Burn(S, d)
+LedgerForwarded(S) == CASE Route(S) = "CCTP" -> Burn(S, OutDenom(S))
+                        [] Route(S) = "HYP" -> Delta(S, "warp", OutDenom(S))
+                        [] OTHER -> Delta(S, RcptAcct(S.in.fw.to), OutDenom(S))
+\* when the destination account is also a fee recipient the ledger cannot separate the two
+\* credits; the amount of the observed request is used instead
+Forwarded(S) == IF Sink(S) \cap FeeRcpts(S) = {} \/ S.req = <<>> THEN LedgerForwarded(S) ELSE S.req[1].amt
+\* every credit of denom d outside the orbiter account and the escrow, plus what was burned,
+\* net of the pre-existing orbiter balance (which the transfer moves to the dust collector)
+LeftOrbiter(S, d) == MapThenSumSet(LAMBDA a : Delta(S, a, d), Acct \ {"orb", Esc(S)}) + Burn(S, d)
+                       - S.pre.bal["orb"][d]
 SumOverAccts(S, d) == MapThenSumSet(LAMBDA a : Delta(S, a, d), Acct)
 
 -----------------------------------------------------------------------------
@@ -48,17 +53,15 @@ SumOverAccts(S, d) == MapThenSumSet(LAMBDA a : Delta(S, a, d), Acct)
 Prop_C01(S) == IsRecv(S) =>
   /\ ~S.panic                                             \* an acknowledgement exists
   /\ (S.ok => ~S.orbUp)                                   \* any packet, any encoding
-  /\ (IsTransfer(S) /\ ~HasSwap(S) =>
-        /\ S.post.bal["orb"][D(S)] <= S.pre.bal["orb"][D(S)]
-        /\ LeftOrbiter(S, D(S)) >= A(S))                  \* the delivered coin went out
+  /\ (IsTransfer(S) => S.post.bal["orb"][D(S)] <= S.pre.bal["orb"][D(S)])   \* the delivered coin went out
 
 (* C02 Every successful transfer conserves value across the whole ledger *)
 Prop_C02(S) == IsTransfer(S) =>
   /\ -Delta(S, Esc(S), D(S)) = A(S)
   /\ Forwarded(S) > 0
-  /\ (~HasSwap(S) => LeftOrbiter(S, D(S)) = A(S))
-  /\ ("dust" \notin FeeRcpts(S) \cup Sink(S) =>
-        S.post.bal["dust"][D(S)] = S.pre.bal["dust"][D(S)] + S.pre.bal["orb"][D(S)])
+  /\ (~HasSwap(S) => LeftOrbiter(S, D(S)) = A(S) /\ S.post.bal["orb"][D(S)] = 0)
+  /\ Delta(S, "dust", D(S)) >= S.pre.bal["orb"][D(S)]
+  /\ ("dust" \notin FeeRcpts(S) \cup Sink(S) => Delta(S, "dust", D(S)) = S.pre.bal["orb"][D(S)])
   /\ \A a \in Acct \ Touched(S), x \in Denom : S.post.bal[a][x] = S.pre.bal[a][x]
   /\ \A a \in Touched(S), x \in Denom \ {D(S), OutDenom(S)} : S.post.bal[a][x] = S.pre.bal[a][x]
   /\ S.othersSame
@@ -85,7 +88,8 @@ Prop_C04(S) == HasFee(S) /\ AmtKind(S.in) = "num" =>
   /\ (S.ok =>
         /\ TheFee(S).at = "FEE" /\ ~FeeRefused(A(S), fs)
         /\ \A r \in Acct \ ({"orb", "dust", Esc(S)} \cup Sink(S)) : Delta(S, r, D(S)) = CreditsOf(A(S), fs)[r]
-        /\ Forwarded(S) = A(S) - FeeTotal(A(S), fs) + (IF Route(S) = "INT" THEN CreditsOf(A(S), fs)[RcptAcct(S.in.fw.to)] ELSE 0))
+        /\ Delta(S, "dust", D(S)) = CreditsOf(A(S), fs)["dust"] + S.pre.bal["orb"][D(S)]
+        /\ LedgerForwarded(S) = A(S) - FeeTotal(A(S), fs) + (IF Route(S) = "INT" THEN CreditsOf(A(S), fs)[RcptAcct(S.in.fw.to)] ELSE 0))
   /\ (TheFee(S).at = "FEE" /\ ~FeeRefused(A(S), fs) /\ S.ctl.noacts.run /\ S.ctl.noacts.ok
         /\ CleanEnv(S.pre) /\ S.pre.pAct = {} /\ "orb" \notin FeeRcpts(S) => S.ok)
 
